@@ -7,23 +7,27 @@
 (* One behaviour = one (B, W, S, ch) case; every case is printed and        *)
 (* replayed on a real chain built with those parameters (the application   *)
 (* only accepts B >= 2 and W >= 2 at genesis; the other cases are checked  *)
-(* on the model alone).                                                    *)
+(* on the model alone).  Every case exists twice: on a node that never     *)
+(* served a dispatch and on a node that served one for the session while   *)
+(* it was current (session cached): consensus may not depend on that.      *)
 (***************************************************************************)
 EXTENDS ChainClaims, Json
 
 CONSTANTS MaxB, MaxW
 
-VARIABLES B, W, S, hist
-tvars == <<B, W, S, hist>>
+VARIABLES B, W, S, disp, hist
+tvars == <<B, W, S, disp, hist>>
 
 FirstS(b) == ((b + 1) \div b) * b + 1        \* first session start >= 3
 
 Init == /\ B \in 1..MaxB /\ W \in 1..MaxW
         /\ S \in {FirstS(B), FirstS(B) + B}
+        /\ disp \in BOOLEAN      \* the node served a dispatch for the session while it was current (the
+                               \* session is then in its node-local cache when the claim arrives)
         /\ hist = <<>>
 
 Case(ch) ==
-    [B |-> B, W |-> W, S |-> S, ch |-> ch,
+    [B |-> B, W |-> W, S |-> S, ch |-> ch, disp |-> disp,   \* the verdict does not depend on disp
      accepted |-> ClaimWindowOpen(ch, S, B, W),
      entropyH |-> EntropyHeight(S, B, W),
      known    |-> EntropyHeight(S, B, W) \in Known(ch),
@@ -31,7 +35,7 @@ Case(ch) ==
 
 Next == /\ hist = <<>>
         /\ \E ch \in (S - 1)..(LastClaimHeight(S, B, W) + 2) : hist' = <<Case(ch)>>
-        /\ UNCHANGED <<B, W, S>>
+        /\ UNCHANGED <<B, W, S, disp>>
 NextCover == Next /\ PrintT(ToJson(hist'))
 
 \* the property, strictly: no accepted claim height knows the entropy block
